@@ -826,7 +826,11 @@ func (p *Printer) paramExp(pe *ParamExp) {
 		if pe.Repl.Orig != nil {
 			p.word(pe.Repl.Orig)
 		}
-		p.w.WriteByte('/')
+		if pe.Repl.All || pe.Repl.Orig != nil || pe.Repl.With != nil {
+			// With an empty pattern and replacement, as in ${a/},
+			// another slash would turn it into ${a//}.
+			p.w.WriteByte('/')
+		}
 		if pe.Repl.With != nil {
 			p.word(pe.Repl.With)
 		}
